@@ -7,7 +7,7 @@ i.e. the 74 unit/integration tests; doc tests are not part of the pinned command
 checks are then run on them.  A surviving mutant that no check reports is either an equivalent mutant or a gap in the rules;
 both are listed for triage.
 
-usage: selftest/mutgen.py [--files a.rs,b.rs] [-j N] [--limit N] [--out report.json] [--resume report.json]
+usage: selftest/mutgen.py [--files a.rs,b.rs] [-j N] [--limit N] [--out report.json] [--resume report.json] [--recheck-survivors report.json]
 Scratch copies live under $TMPDIR (one per worker, target dir reused for incremental builds) and are removed at the end."""
 import concurrent.futures
 import json
@@ -190,6 +190,11 @@ def main():
         if a == "--resume" and os.path.exists(args[i + 1]):
             for r in json.load(open(args[i + 1]))["mutants"]:
                 done[(r["file"], r["line"], r["new"])] = r
+        if a == "--recheck-survivors" and os.path.exists(args[i + 1]):
+            # keep every verdict of an earlier sweep except the survivors no check reported: those are run again
+            for r in json.load(open(args[i + 1]))["mutants"]:
+                if r["status"] != "survivor-MISSED":
+                    done[(r["file"], r["line"], r["new"])] = r
     muts = enumerate_mutants(files)
     if limit:
         import random
@@ -211,9 +216,22 @@ def main():
         shutil.rmtree(tmp_root, ignore_errors=True)
     json.dump({"mutants": results}, open(outp, "w"), indent=0)
     import collections
+    # survivors that no check reports and that were triaged by hand as equivalent w.r.t. the properties (mutgen_triage.json:
+    # file + mutated line text + reason) are counted separately; any other unreported survivor is a gap
+    tri = {}
+    tp = os.path.join(HERE, "mutgen_triage.json")
+    if os.path.exists(tp):
+        for t in json.load(open(tp)):
+            tri[(t["file"], t["new"].strip())] = t["reason"]
+    for r in results:
+        if r["status"] == "survivor-MISSED" and (r["file"], r["new"].strip()) in tri:
+            r["status"] = "survivor-equivalent"
+            r["reason"] = tri[(r["file"], r["new"].strip())]
+    json.dump({"mutants": results}, open(outp, "w"), indent=0)
     c = collections.Counter(r["status"] for r in results)
     print(dict(c))
+    return 1 if c.get("survivor-MISSED") else 0
 
 
 if __name__ == "__main__":
-    main()
+    sys.exit(main())
